@@ -1,5 +1,5 @@
 """Runs one scenario in a fresh process and prints the normalised ledger as JSON (C14).
-Usage: python -m harness.run_one <scenario.json>   (env: PYTHONHASHSEED, VERIF_CLOCK_OFFSET_S)"""
+Usage: python -m harness.run_one <scenario.json>   (env: PYTHONHASHSEED, VERIF_CLOCK_OFFSET_S, VERIF_CLOCK_STEP_S)"""
 import os
 import sys
 import json
@@ -9,17 +9,23 @@ ROOT = os.path.dirname(os.path.dirname(os.path.abspath(__file__)))
 sys.path.insert(0, ROOT)
 
 off = float(os.environ.get("VERIF_CLOCK_OFFSET_S", "0"))
-if off:
+step = float(os.environ.get("VERIF_CLOCK_STEP_S", "0"))      # the wall clock of this process also runs fast: + step per reading
+if off or step:
     _real = datetime.datetime
+    _reads = [0]
+
+    def _delta():
+        _reads[0] += 1
+        return datetime.timedelta(seconds=off + step * _reads[0])
 
     class Shifted(_real):  # the "wall clock" of this process is shifted
         @classmethod
         def utcnow(cls):
-            return _real.utcnow() + datetime.timedelta(seconds=off)
+            return _real.utcnow() + _delta()
 
         @classmethod
         def now(cls, tz=None):
-            return _real.now(tz) + datetime.timedelta(seconds=off)
+            return _real.now(tz) + _delta()
 
     datetime.datetime = Shifted
 
